@@ -199,6 +199,9 @@ func runCase(c Case, idx int) (fs []finding, incon string, obs map[string]int, r
 			}
 		}
 		tReadLo = broker.Now()
+		// from now on everything is acknowledged at once (before the slot is freed: the test message may arrive
+		// right behind the acknowledgement of the blocker, and an unacknowledged test message would block the sentinel)
+		s.SetAutoAck(true)
 		switch blk.QoS {
 		case 1:
 			_ = s.Send(&mqttx.Packet{Type: mqttx.PUBACK, PacketID: blk.PacketID})
@@ -209,7 +212,6 @@ func runCase(c Case, idx int) (fs []finding, incon string, obs map[string]int, r
 				_ = s.Send(&mqttx.Packet{Type: mqttx.PUBCOMP, PacketID: blk.PacketID})
 			}
 		}
-		s.SetAutoAck(true)
 	}
 	if !sentinel(s) {
 		add("sentinel.missing", "subscriber never received the sentinel published after the test message")
